@@ -234,7 +234,7 @@ def t_modify(kind, changed, nrows, orows=None):
                 h.assume(ops.compare('<', p, ops.arith('*', cur, Fraction('0.99'))))
             else:
                 h.assume(ops.compare('>', p, ops.arith('*', cur, Fraction('1.01'))))
-        s.f[kind] = [tuple(r) for r in new] if nrows > 1 else tuple(new[0])
+        s.f[kind] = [tuple(r) for r in new] if nrows != 1 else tuple(new[0])        # nrows == 0: the declaration is withdrawn ([])
         if changed and orows is not None and orows != nrows:
             # a different number of rows is a modification whatever the rows hold (e.g. two identical rows reduced to one)
             s.f['_' + kind] = arr2(rows2(h, 'o', orows))
@@ -473,7 +473,9 @@ def t_cancel_all(h):
     orders = []
     for j in range(3):
         st = h.ctx.fresh_str(f'status{j}', among=['ACTIVE', 'EXECUTED', 'CANCELED'])
-        o = common.mk_order(h, side='buy', type='LIMIT', qty=Fraction(1), price=Fraction(10), symbol='BTC-USDT', exchange='Sandbox',
+        # the order type is a finite enumeration: a still pending MARKET order is cancelled like a resting one
+        ty = h.ctx.fresh_str(f'type{j}', among=['LIMIT', 'STOP', 'MARKET'])
+        o = common.mk_order(h, side='buy', type=ty, qty=Fraction(1), price=Fraction(10), symbol='BTC-USDT', exchange='Sandbox',
                             reduce_only=False, status=st, id=f'o{j}')
         orders.append((o, st))
     reg = Obj(None, {'get_active_orders': Builtin('get_active_orders', lambda i, a, k: [o for o, _ in orders]),
@@ -543,6 +545,7 @@ def tasks(tier):
                                overrides=dict(ov)))
         for n, o in ((1, 2), (2, 1), (2, 3)):
             ts.append(Task(f'modify.{kind}.rows{o}to{n}', t_modify(kind, True, n, o), extra=x, overrides=dict(ov)))
+        ts.append(Task(f'modify.{kind}.rows1to0', t_modify(kind, True, 0, 1), extra=x, overrides=dict(ov)))
     for pt in ('long', 'short', 'close'):
         nsel = 3 if tier == 'quick' else 4
         ts.append(Task(f'selectors.{pt}', t_selectors(pt, nsel), extra=dict(x, bounded=f'registry of N={nsel} orders (side and status symbolic)'), overrides=dict(ov),
